@@ -102,6 +102,11 @@ func sharedConsumerGrammar(r *Rand) *Grammar {
 		alts = append(alts, a)
 	}
 	m := add(GNode{Op: "any", Kids: alts, Memo: true})
+	if r.Chance(1, 5) {
+		// the shared multi-result parser sits behind a parser.FuncWrapper instead of Memoize
+		g.Nodes[m].Memo = false
+		m = add(GNode{Op: "fwrap", Kids: []int{m}})
+	}
 	if r.Chance(1, 4) {
 		// a memoised parser with MANY alternatives (Fibonacci growth: 5, 8, 13, 21, 34, 55, 89
 		// results on a^4..a^10): list sizes around allocator size classes
